@@ -15,7 +15,7 @@ import mosaik_api_v3
 from mosaik_api_v3.connection import Channel
 
 from . import ctx
-from .loop import NODE
+from .loop import NODE, h64
 
 
 class MemTransport(asyncio.Transport):
@@ -79,7 +79,16 @@ class MemTransport(asyncio.Transport):
             self.run.fault_state["fired"] = self.run.fault_state.get("fired", 0) + 1
             self.node.kill()
             return
-        self._enqueue(("data", bytes(data)))
+        data = bytes(data)
+        if len(data) > 12 and self.run.sched.split and \
+                h64(self.run.sched.seed, self.sid, self.n_sent, "split") % 4 == 0:
+            # like TCP, deliver one write in two segments (the reader must reassemble the frame)
+            cut = 1 + h64(self.run.sched.seed, self.sid, self.n_sent, "cut") % (len(data) - 1)
+            self._enqueue(("data", data[:cut]))
+            self._enqueue(("data", data[cut:]))
+            self.run.probe("frame_split")
+        else:
+            self._enqueue(("data", data))
         if act == "kill":
             self.run.rec("fault", "kill_after_reply", self.sid, None, None, self._others_in_flight())
             self.run.fault_state["fired"] = self.run.fault_state.get("fired", 0) + 1
